@@ -19,8 +19,8 @@ def reg(cls):
     return cls
 
 
-SH_Q = [(), (1,), (3,), (2, 1), (1, 3), (2, 3)]
-SH_T = SH_Q + [(2,), (1, 1), (3, 1), (2, 1, 3), (1, 2, 1), (2, 2, 3), (1, 1, 1), (3, 2, 2), (2, 1, 1, 2), (1, 2, 1, 1, 2)]
+SH_Q = [(), (1,), (3,), (2, 1), (1, 3), (2, 3), (2, 2, 3)]     # the rank-3 shape: un-broadcasting over leading dims *and* unit dims
+SH_T = SH_Q + [(2,), (1, 1), (3, 1), (2, 1, 3), (1, 2, 1), (1, 1, 1), (3, 2, 2), (2, 1, 1, 2), (1, 2, 1, 1, 2)]
 
 
 def shapes(tier):
@@ -180,7 +180,7 @@ def _matmul_ref(a, b):
 
 
 MM_Q = [((2, 3), (3, 2)), ((1, 2), (2, 1)), ((2, 1), (1, 3)), ((2, 2, 3), (3, 2)), ((2, 3), (2, 3, 1)),
-        ((2, 1, 2), (1, 2, 2))]
+        ((2, 1, 2), (1, 2, 2)), ((2, 2, 3), (3, 1))]
 MM_T = MM_Q + [((2, 2, 2), (2, 2, 2)), ((1, 2, 2, 2), (2, 1, 2, 1)), ((2, 1, 1, 2), (2, 2, 1)), ((3, 1), (1, 1))]
 
 
